@@ -592,7 +592,7 @@ def _classify_read(ctx, fa, p, e, pvar, depth):
     # a read through a wrapper whose construction chain contains take(n)
     recv = args[0] if args else None
     for a in args:
-        for t in subterms(a):
+        for t in _takes_not_unwrapped(a):
             if is_call_to(t, lambda s: s.endswith("::take")) and len(t[2]) == 2:
                 n = t[2][1]
                 if n[0] == "v" and n[1].startswith("param:"):
@@ -615,6 +615,25 @@ def _classify_read(ctx, fa, p, e, pvar, depth):
                 return ("seekbounded",)
         return ("none",)
     return ("unbounded", "%s on the raw stream" % fn.split("::")[-1])
+
+
+UNWRAP_SUFFIX = ("::get_mut", "::get_ref", "::into_inner", "::get_pin_mut")
+
+
+def _takes_not_unwrapped(t, under_unwrap=False):
+    """`take(..)` terms that still limit the reader: `take(..).get_mut()` / `.into_inner()` hand out the unlimited inner reader"""
+    if not isinstance(t, tuple) or not t:
+        return
+    if t[0] == "call":
+        if t[1].endswith("::take") and not under_unwrap:
+            yield t
+        uw = t[1].endswith(UNWRAP_SUFFIX)
+        for a in t[2]:
+            yield from _takes_not_unwrapped(a, uw)
+    elif t[0] in ("mut", "f", "proj", "elem"):
+        yield from _takes_not_unwrapped(t[1], under_unwrap)
+    elif t[0] in ("cast", "un"):
+        yield from _takes_not_unwrapped(t[2], under_unwrap)
 
 
 def r_bounded_read(ctx):
@@ -693,4 +712,152 @@ def r_bounded_read(ctx):
             fa = ctx.fa(f)
             ok = cls[0] == "bounded" and cls[1] == (fa.param_names.index("length") if "length" in fa.param_names else -1)
             obs.append(Ob("R-BOUNDED-READ", f["path"], "directory decoder reads only through take(length)", ok, "read class of the input parameter: %s" % (cls,), rel(f["loc"])))
+    return obs
+
+
+# ------------------------------------------------------------------------------------------------
+# C13 / C20: the position of a stream after a read through a buffering/decoding wrapper is unspecified
+
+def _pos_summary(ctx, fnpath, pidx, depth=0):
+    """(needs_known_position_at_entry, leaves_position_unspecified) for stream parameter #pidx of a local function"""
+    key = ("possum", fnpath, pidx)
+    if key in ctx._roles:
+        return ctx._roles[key]
+    ctx._roles[key] = (False, True)   # provisional for recursion: assume it seeks first and leaves the position unspecified
+    f = ctx.fn(fnpath)
+    if f is None or depth > 8:
+        return (True, True)
+    fa = ctx.fa(f)
+    if pidx >= len(fa.param_names):
+        return (False, False)
+    S = fa.params.get(fa.param_names[pidx])
+    needs = False
+    leaves = False
+    for p in fa.paths:
+        st, viol, first_is_read = _walk_positions(ctx, fa, p, S, depth)
+        if first_is_read:
+            needs = True
+        if p.exit in ("ok", "tail", "unit") and st != "K":
+            leaves = True
+    ctx._roles[key] = (needs, leaves)
+    return (needs, leaves)
+
+
+def _walk_positions(ctx, fa, p, S, depth=0):
+    """simulate the known/unspecified position state of stream S along one path.
+    returns (final state, [violating events], first effect on S is a read that needs a known position)"""
+    state = "K"
+    viol = []
+    first = None
+    evs = p.events
+    for idx, e in enumerate(evs):
+        if e.kind == "loop" and e.d["what"] == "enter":
+            # a previous iteration may have left the position unspecified
+            lid = e.d["lid"]
+            body_state = state
+            j = idx + 1
+            tmp = state
+            while j < len(evs) and not (evs[j].kind == "loop" and evs[j].d["what"] == "exit" and evs[j].d["lid"] == lid):
+                tmp = _step(ctx, fa, evs[j], S, tmp, None, depth)[0]
+                j += 1
+            if tmp != "K":
+                state = "U" if state == "K" else state
+            continue
+        if e.kind != "call":
+            continue
+        nstate, bad, kind = _step(ctx, fa, e, S, state, viol, depth)
+        if first is None and kind is not None:
+            first = kind
+        state = nstate
+    return state, viol, first == "read"
+
+
+def _step(ctx, fa, e, S, state, viol, depth):
+    if e.kind != "call":
+        return state, False, None
+    kinds = set(k for k, ks in e.d["effects"] if S in ks)
+    if not kinds:
+        return state, False, None
+    fn = e.d["fn"]
+    if "seek" in kinds and fn in absint_SEEK:
+        tgt = unmut(e.d["args"][1]) if len(e.d["args"]) > 1 else None
+        if is_call_to(tgt, lambda s: s == "std::io::SeekFrom::Start"):
+            return "K", False, "seek"
+        if tgt is not None and tgt[0] == "v" and tgt[1].startswith("param:"):
+            return "K", False, "seek"     # an absolute SeekFrom handed in by the caller (checked at the caller: R-RESEEK)
+        return state, False, "seek"
+    if fn in ctx.facts.fns:
+        # local callee: which parameter receives S?
+        needs = leaves = False
+        for i, ks in enumerate(e.d["argkeys"]):
+            if S in ks and i < len(e.d["tys"]) and _ab.is_streamlike_ty(e.d["tys"][i]):
+                n, l = _pos_summary(ctx, fn, i, depth + 1)
+                needs = needs or n
+                leaves = leaves or l
+        bad = needs and state != "K"
+        if bad and viol is not None:
+            viol.append((e, "calls %s, which reads at the current position, while the position is unspecified" % fn))
+        kind = "read" if needs else ("seek" if ("seek" in kinds) else None)
+        if "read" in kinds or "unknown" in kinds:
+            return ("U" if leaves else "K"), bad, kind
+        return state, bad, kind
+    if "read" in kinds or "unknown" in kinds:
+        direct = e.d.get("direct")
+        raw = direct == S
+        wid = None if raw else ("W", direct)
+        bad = False
+        if raw:
+            bad = state != "K"
+            new = "K"
+        else:
+            bad = not (state == "K" or state == wid)
+            new = wid
+        if bad and viol is not None:
+            viol.append((e, "reads through %s while the stream position is unspecified (a previous read went through a different buffering/decoding wrapper)" % ("the raw stream" if raw else "a new wrapper")))
+        return new, bad, "read"
+    return state, False, None
+
+
+import absint as _ab
+absint_SEEK = _ab.SEEK_FNS
+
+
+def r_seek_after_codec(ctx):
+    """R-SEEK-AFTER-CODEC: decoders and buffered readers may consume more or fewer bytes of the underlying stream than the section they decode,
+    depending on how the stream fragments reads; so after a read through such a wrapper the raw position is unspecified, and every later read on the
+    stream must first re-establish it with an absolute seek"""
+    obs = []
+    n = 0
+    for f in ctx.user_fns():
+        try:
+            fa = ctx.fa(f)
+        except PathExplosion:
+            continue
+        for pname in fa.param_names:
+            S = fa.params.get(pname)
+            if S is None:
+                continue
+            summ = ctx.summaries.get(f["path"], {})
+            idx = fa.param_names.index(pname)
+            if "read" not in summ.get(idx, ()):
+                continue
+            if not _ab.is_streamlike_ty(f["params"][idx]["ty"] or ""):
+                continue
+            bad = {}
+            touched = False
+            for p in fa.paths:
+                st, viol, first = _walk_positions(ctx, fa, p, S)
+                touched = True
+                for (e, why) in viol:
+                    bad[e.node.get("id")] = (e, why)
+            if touched:
+                n += 1
+                if bad:
+                    for (e, why) in bad.values():
+                        obs.append(Ob("R-SEEK-AFTER-CODEC", f["path"], "%s on `%s`" % (e.d["fn"].rpartition("::")[2], pname), False, why, e.loc()))
+                else:
+                    obs.append(Ob("R-SEEK-AFTER-CODEC", f["path"], "every read on `%s` happens at a well-defined position" % pname, True,
+                                  "absolute seek precedes every read that follows a wrapped read", rel(f["loc"])))
+    if n == 0:
+        return no_anchor("R-SEEK-AFTER-CODEC", "functions reading from a stream parameter")
     return obs
